@@ -94,12 +94,31 @@ def invalid_state_exc():
     raise AssertionError("unreachable")
 
 
+class Abort(BaseException):
+    """A library's own 'give up' signal: deliberately not an Exception (like KeyboardInterrupt, GeneratorExit)."""
+
+
 async def consume_async(name, make_exc):
     got = []
     received = None
-    try:
+
+    async def body():
         async for x in to_async_iter(failing_source(name, make_exc)):
             got.append(x)
+
+    task = aio.ensure_future(body())
+    done, _ = await aio.wait([task], timeout=10)
+    if not done:
+        problems.append(f"to_async_iter / {name}: the consumer is still waiting 10 s after the source failed "
+                        f"(elements so far {got!r}): the end of the sequence never reached it")
+        task.cancel()
+        try:
+            await task
+        except BaseException as e:
+            received = e
+        return got, received
+    try:
+        task.result()
     except BaseException as e:  # asyncio.CancelledError is a BaseException
         received = e
     return got, received
@@ -112,6 +131,7 @@ async def main_async():
         ('TimeoutError', timeout_exc),
         ('concurrent.futures.CancelledError', cancelled_exc),
         ('concurrent.futures.InvalidStateError', invalid_state_exc),
+        ('failure that is not an Exception (BaseException subclass)', lambda: Abort("giving up")),
     ]:
         out[name] = await consume_async(name, make_exc)
     return out
